@@ -4,3 +4,5 @@ from . import render  # noqa: F401
 from . import layout  # noqa: F401
 from . import text  # noqa: F401
 from . import attrs  # noqa: F401
+from . import children  # noqa: F401
+from . import helpers  # noqa: F401
